@@ -87,6 +87,10 @@ QuantPart(dummy) ==
         ent \in {"ci", "sorted", "max_n", "max_1024"}, ty \in {"i32", "f64", "char", "str"} :
        Emit([op |-> "quant.data", entry |-> ent, ty |-> ty, data |-> [i \in 1..n |-> (i * 3) % 7],
              qa |-> qa, qb |-> 8, q |-> [n |-> qa, p |-> -3], conf |-> cf])
+  \* ci_sorted_unchecked on data in DESCENDING order: whatever it answers, never an interval with its bounds inverted
+  /\ \A n \in {4, 7, 15}, qa \in {2, 4, 6}, cf \in Confs, ty \in {"i32", "f64"} :
+       Emit([op |-> "quant.data", entry |-> "sorted_raw", ty |-> ty, data |-> [i \in 1..n |-> n + 1 - i],
+             qa |-> qa, qb |-> 8, q |-> [n |-> qa, p |-> -3], conf |-> cf])
   \* documented panics: incomparable elements, capacity overflow
   /\ \A n \in {4, 7, 15}, pos \in 0..14, cf \in Confs, ent \in {"ci", "max_n", "max_1024"}, qa \in {2, 4, 6} :
        (pos < n) =>
